@@ -1,10 +1,14 @@
 import BufProofs.Lemmas.RulesLemmas
+import BufProofs.Lemmas.RulesResolveLemmas
 /-
   C06 — Rule selection and suppression compose set-theoretically.  Property theorems only;
   vocabulary (`denote`, `Unknown`, `Suppressed` and its clauses, `Kept`, `MoreSuppression`,
   `MoreComments(Img)`, `NewlySuppressed`) and helper lemmas live in
-  BufProofs/Lemmas/RulesLemmas.lean; the model is BufModel/Rules.lean over the REGENERATED tables
-  BufGen/RuleTables.lean.
+  BufProofs/Lemmas/RulesLemmas.lean; the user-level vocabulary (`tableOf`, `UserMoreSuppression`,
+  `addIgnore` / `addIgnoreOnly` / `addExcept`, `UserScope`, `PathCovers`, `SameElement`,
+  `MoreCommentsSrc`, `faElem`) and the lemmas about `resolve` / `runCheck` — the functions the
+  driver runs — live in BufProofs/Lemmas/RulesResolveLemmas.lean; the model is
+  BufModel/Rules.lean over the REGENERATED tables BufGen/RuleTables.lean.
 -/
 namespace BufProofs.C06
 open BufModel.Path BufModel.Rules BufGen.RuleTables
@@ -78,7 +82,10 @@ theorem configured_rules_are_selected (all : List RuleRow) (ruleIDs : List Id) (
 
 /-- An id that is neither a rule id of the requested type nor a category carried by such a
     rule — in `use` (after defaulting), among the non-blank `except` entries, or as an
-    `ignore_only` key — makes `newRulesConfig` fail. -/
+    `ignore_only` key — makes `newRulesConfig` fail.  (`hrs`: the table has a rule of the type.
+    When the builtin rules are disabled `resolve` hands `newRulesConfig` the EMPTY table; then
+    nothing is known or unknown and every configuration resolves to the empty selection — as
+    coded, see `resolved_config_spec` and its `disableBuiltin` example.) -/
 theorem unknown_id_rejected (all : List RuleRow) (lint : Bool) (c : CheckConfig)
     (hrs : rulesForType all lint ≠ []) (id : Id) (hu : Unknown (rulesForType all lint) id)
     (hin : id ∈ effectiveUse (rulesForType all lint) c.use ∨ (id ∈ c.except ∧ blankId id = false) ∨
@@ -159,7 +166,8 @@ theorem suppressed_iff (cfg : Config) (r : Id) (f : FileInfo) (sp : SPath) (b : 
 /-- The report is the union over the selected rules of what each reports on its own, minus
     exactly the suppressed annotations: every reported annotation comes from a kept one
     (selected rule, not suppressed), and every kept annotation is reported up to the dedup key
-    of `bufanalysis` (exactly — see `report_is_union_exact` — when dedup keys do not collide). -/
+    of `bufanalysis` — which is injective on these annotations, hence exactly: see
+    `report_is_union_exact` (no side condition). -/
 theorem report_is_union (cfg : Config) (img : Image) (out : List FileAnnot) (h : report cfg img = .ok out) :
     (∀ fa ∈ out, ∃ a, (a ∈ img.annots ∧ a.ruleId ∈ cfg.rules.ruleIDs ∧ ¬ AnnotSuppressed cfg img a) ∧
         toFileAnnot img a = fa) ∧
@@ -168,36 +176,37 @@ theorem report_is_union (cfg : Config) (img : Image) (out : List FileAnnot) (h :
   have hs := report_spec cfg img out h
   exact ⟨hs.2.1, fun a h1 h2 h3 => hs.2.2 a ⟨h1, h2, h3⟩⟩
 
+/-- … and exactly: `bufanalysis`' dedup key (length-prefixed fields, fix 16321bc) is injective on
+    what `annotationToFileAnnotation` produces (`dedupKey_inj_wf`), so the dedup only removes
+    genuine duplicates and the reported set is precisely the image of the kept annotations. -/
 theorem report_is_union_exact (cfg : Config) (img : Image) (out : List FileAnnot) (h : report cfg img = .ok out)
-    (hinj : ∀ a ∈ img.annots, ∀ b ∈ img.annots, dedupKey (toFileAnnot img a) = dedupKey (toFileAnnot img b) →
-      toFileAnnot img a = toFileAnnot img b) (fa : FileAnnot) :
+    (fa : FileAnnot) :
     fa ∈ out ↔ ∃ a ∈ img.annots, a.ruleId ∈ cfg.rules.ruleIDs ∧ ¬ AnnotSuppressed cfg img a ∧ toFileAnnot img a = fa := by
-  have hs := report_spec cfg img out h
+  rw [report_mem_iff cfg img out h fa]
   constructor
-  · intro hfa
-    rcases hs.2.1 fa hfa with ⟨a, ⟨h1, h2, h3⟩, h4⟩
-    exact ⟨a, h1, h2, h3, h4⟩
-  · rintro ⟨a, h1, h2, h3, rfl⟩
-    rcases hs.2.2 a ⟨h1, h2, h3⟩ with ⟨fb, hfb, hk⟩
-    rcases hs.2.1 fb hfb with ⟨b, ⟨hb1, _, _⟩, hb4⟩
-    rw [← hb4] at hk
-    rw [← hinj b hb1 a h1 hk, hb4]; exact hfb
+  · rintro ⟨a, ⟨h1, h2, h3⟩, h4⟩; exact ⟨a, h1, h2, h3, h4⟩
+  · rintro ⟨a, h1, h2, h3, h4⟩; exact ⟨a, ⟨h1, h2, h3⟩, h4⟩
 
-/-- Adding suppression — more `except` (fewer selected rules), more `ignore` paths, more
-    `ignore_only` entries, switching on allow_comment_ignores / ignore_unstable_packages /
-    exclude-imports, or adding `buf:lint:ignore` comments to the sources — never adds an
-    annotation: everything reported afterwards was reported before (same dedup key). -/
+/-- Adding suppression to the RESOLVED configuration — fewer selected rules, more ignore paths,
+    more ignore_only entries, allow_comment_ignores / ignore_unstable_packages / exclude-imports
+    switched on — and/or more directives in comments that leave every POSITION unchanged
+    (`MoreCommentsImg` demands `img'.annots = img.annots`: a directive appended to an existing
+    comment line, or `img' = img`) never adds an annotation: everything reported afterwards was
+    reported before (same path, positions, rule, message: `out' ⊆ out`).
+    What the user edits resolves to `MoreSuppression`: `user_suppression_resolves_to_more`; the
+    end-to-end forms over `runCheck` are `user_suppression_monotone` and `adding_*_monotone`.
+    Comment edits that insert lines (and so shift positions) are covered by
+    `suppression_monotone_elements`, stated over element identity instead of positions. -/
 theorem suppression_monotone (cfg cfg' : Config) (img img' : Image) (out out' : List FileAnnot)
     (hc : MoreSuppression cfg cfg') (hi : MoreCommentsImg img img')
     (h : report cfg img = .ok out) (h' : report cfg' img' = .ok out') :
-    ∀ fa ∈ out', ∃ fb ∈ out, dedupKey fb = dedupKey fa := by
+    ∀ fa ∈ out', fa ∈ out := by
   intro fa hfa
-  rcases (report_spec cfg' img' out' h').2.1 fa hfa with ⟨a, ⟨h1, h2, h3⟩, h4⟩
+  rcases (report_mem_iff cfg' img' out' h' fa).1 hfa with ⟨a, ⟨h1, h2, h3⟩, h4⟩
   have hk : Kept cfg img a := by
     refine ⟨by rw [← hi.annots]; exact h1, hc.rules _ h2, ?_⟩
     intro hs; exact h3 (hs.mono hc hi)
-  rcases (report_spec cfg img out h).2.2 a hk with ⟨fb, hfb, hkey⟩
-  exact ⟨fb, hfb, by rw [hkey, ← h4, toFileAnnot_moreComments hi]⟩
+  exact (report_mem_iff cfg img out h fa).2 ⟨a, hk, by rw [← h4, toFileAnnot_moreComments hi]⟩
 
 /-- A suppression removes only what is in its scope: if an annotation is kept under `cfg` and
     no longer under `cfg'` (same image), then either its rule was de-selected, or at its file
@@ -221,6 +230,320 @@ theorem suppression_scoped (cfg cfg' : Config) (img : Image) (a : Annot)
     · left; exact ⟨x, hx, newlySuppressed_of hs (fun h => hn (Or.inl ⟨x, hx, h⟩))⟩
     · right; exact ⟨x, hx, newlySuppressed_of hs (fun h => hn (Or.inr ⟨x, hx, h⟩))⟩
   · left; exact hr
+
+/-! ## the functions the driver runs (`resolve`, `configuredRules`, `runCheck`) are `newRulesConfig` / `report` -/
+
+/-- `resolve` — what `Driver/C06.lean` evaluates on every `rules` / `check` line — is
+    `newRulesConfig`, applied to the user's configuration directly (`validated = false`) or after
+    `bufconfig.NewEnabledCheckConfig` (`validated = true`), over the rule table of the config
+    version (EMPTY when the builtin rules are disabled: then every configuration, including one
+    with unknown ids, resolves to the empty selection — `resolved_config_spec`). -/
+theorem resolve_is_newRulesConfig (allRules : List RuleRow) (lint validated : Bool) (c : CheckConfig) :
+    resolve allRules lint validated c =
+      if validated then
+        (newEnabledCheckConfig c).bind (newRulesConfig (if c.disableBuiltin then [] else allRules) lint)
+      else newRulesConfig (if c.disableBuiltin then [] else allRules) lint c := by
+  unfold resolve
+  cases validated with
+  | false => simp
+  | true =>
+    simp only [if_true]
+    cases newEnabledCheckConfig c <;> rfl
+
+/-- `runCheck` (driver, `check` lines) is `report` on the resolved configuration. -/
+theorem runCheck_is_report (allRules : List RuleRow) (lint validated : Bool) (c : CheckConfig)
+    (aci iup exi : Bool) (img : Image) :
+    runCheck allRules lint validated c aci iup exi img =
+      (resolve allRules lint validated c).bind (fun rc => report (mkConfig lint rc aci iup exi) img) := by
+  unfold runCheck
+  cases resolve allRules lint validated c <;> rfl
+
+/-- `configuredRules` (driver, `rules` lines) is `configuredRuleIds` of the resolved selection. -/
+theorem configuredRules_is_configuredRuleIds (allRules : List RuleRow) (lint validated : Bool) (c : CheckConfig) :
+    configuredRules allRules lint validated c =
+      (resolve allRules lint validated c).bind
+        (fun rc => .ok (configuredRuleIds (if c.disableBuiltin then [] else allRules) rc.ruleIDs)) := by
+  unfold configuredRules
+  cases resolve allRules lint validated c <;> rfl
+
+/-- What the driver's `resolve` returns, in terms of the lists THE USER wrote (through
+    `NewEnabledCheckConfig`'s dedupe / sort / path normalisation when `validated`, and
+    `newRulesConfig`'s category expansion, deprecation replacement and path normalisation):
+    with an empty rule table (no rule of the type, or builtin rules disabled) the empty
+    configuration; otherwise
+      * the selected ids are `(⋃ denote use) \ (⋃ denote except)`,
+      * the resolved ignore paths are the normal forms of the non-empty `ignore` entries,
+      * rule `r` is ignored under `p` iff some `ignore_only` key DENOTING `r` — the rule id, a
+        category carrying the rule, a deprecated id whose replacement it is — lists a non-empty
+        path with normal form `p`. -/
+theorem resolved_config_spec (allRules : List RuleRow) (lint validated : Bool) (c : CheckConfig) (rc : RulesConfig)
+    (h : resolve allRules lint validated c = .ok rc) :
+    (tableOf allRules lint c = [] → rc = { ruleIDs := [], ignoreRootPaths := [], ignoreOnly := [] }) ∧
+    (tableOf allRules lint c ≠ [] →
+      (∀ x, x ∈ rc.ruleIDs ↔
+        (∃ u ∈ effectiveUse (tableOf allRules lint c) c.use, x ∈ denote (tableOf allRules lint c) u) ∧
+        ¬ (∃ e ∈ c.except, blankId e = false ∧ x ∈ denote (tableOf allRules lint c) e)) ∧
+      (∀ p, p ∈ rc.ignoreRootPaths ↔ ∃ q ∈ c.ignore, q ≠ [] ∧ normalizeAndValidate q = .ok p) ∧
+      (∀ r p, (r, p) ∈ rc.ignoreOnly ↔
+        ∃ k ps q, (k, ps) ∈ c.ignoreOnly ∧ q ∈ ps ∧ q ≠ [] ∧ r ∈ denote (tableOf allRules lint c) k ∧
+          normalizeAndValidate q = .ok p)) := by
+  have hs := resolve_spec allRules lint validated c rc h
+  refine ⟨hs.1, fun hrs => ?_⟩
+  have S := hs.2 hrs
+  refine ⟨S.sel, S.ignore, fun r p => ?_⟩
+  rw [S.ignoreOnly r p]
+  constructor
+  · rintro ⟨k, q, ⟨ps, hm, hq⟩, hne, hd, hn⟩; exact ⟨k, ps, q, hm, hq, hne, hd, hn⟩
+  · rintro ⟨k, ps, q, hm, hq, hne, hd, hn⟩; exact ⟨k, q, ⟨ps, hm, hq⟩, hne, hd, hn⟩
+
+/-- `suppressed_iff`'s two path clauses in the USER's terms: under the resolved configuration a
+    file is covered by an ignore path iff some non-empty `ignore` entry the user wrote
+    normalises to a path that equals-or-contains the file's path; it is covered for rule `r`
+    through `ignore_only` iff some key denoting `r` lists such an entry. -/
+theorem ignore_clauses_user_level (allRules : List RuleRow) (lint validated : Bool) (c : CheckConfig) (rc : RulesConfig)
+    (h : resolve allRules lint validated c = .ok rc) (hrs : tableOf allRules lint c ≠ [])
+    (aci iup exi : Bool) (r : Id) (f : FileInfo) :
+    (IgnorePathClause (mkConfig lint rc aci iup exi) f ↔
+      ∃ q ∈ c.ignore, q ≠ [] ∧ ∃ p, normalizeAndValidate q = .ok p ∧ equalsOrContainsPath p f.path = true) ∧
+    (IgnoreOnlyClause (mkConfig lint rc aci iup exi) r f ↔
+      ∃ k ps q, (k, ps) ∈ c.ignoreOnly ∧ q ∈ ps ∧ q ≠ [] ∧ r ∈ denote (tableOf allRules lint c) k ∧
+        ∃ p, normalizeAndValidate q = .ok p ∧ equalsOrContainsPath p f.path = true) := by
+  have S := (resolve_spec allRules lint validated c rc h).2 hrs
+  unfold IgnorePathClause IgnoreOnlyClause
+  rw [mkConfig_rules]
+  constructor
+  · constructor
+    · rintro ⟨p, hp, he⟩
+      rcases (S.ignore p).1 hp with ⟨q, hq, hne, hn⟩
+      exact ⟨q, hq, hne, p, hn, he⟩
+    · rintro ⟨q, hq, hne, p, hn, he⟩
+      exact ⟨p, (S.ignore p).2 ⟨q, hq, hne, hn⟩, he⟩
+  · constructor
+    · rintro ⟨p, hp, he⟩
+      rcases (S.ignoreOnly r p).1 hp with ⟨k, q, ⟨ps, hm, hq⟩, hne, hd, hn⟩
+      exact ⟨k, ps, q, hm, hq, hne, hd, p, hn, he⟩
+    · rintro ⟨k, ps, q, hm, hq, hne, hd, p, hn, he⟩
+      exact ⟨p, (S.ignoreOnly r p).2 ⟨k, q, ⟨ps, hm, hq⟩, hne, hd, hn⟩, he⟩
+
+/-- `report_is_union_exact`, end to end over what the driver runs: `runCheck` reports exactly
+    the file annotations of the annotations of selected rules that are not suppressed under the
+    resolved configuration. -/
+theorem runCheck_is_union (allRules : List RuleRow) (lint validated : Bool) (c : CheckConfig)
+    (aci iup exi : Bool) (img : Image) (out : List FileAnnot)
+    (h : runCheck allRules lint validated c aci iup exi img = .ok out) :
+    ∃ rc, resolve allRules lint validated c = .ok rc ∧
+      ∀ fa, fa ∈ out ↔ ∃ a, Kept (mkConfig lint rc aci iup exi) img a ∧ toFileAnnot img a = fa := by
+  rcases (runCheck_ok_iff _ _ _ _ _ _ _ _ _).1 h with ⟨rc, hr, hrep⟩
+  exact ⟨rc, hr, report_mem_iff _ _ _ hrep⟩
+
+/-! ## suppression added at the level the user edits -/
+
+/-- Adding `except` ids, `ignore` paths, `ignore_only` (key, path) entries to the check
+    configuration the user writes (`UserMoreSuppression`: as sets — any position, any number,
+    duplicates allowed) yields, for every pair of accepted configurations and through all the
+    normalisations of both constructors, `MoreSuppression` on the resolved configurations.
+    Options may be switched on at the same time. -/
+theorem user_suppression_resolves_to_more (allRules : List RuleRow) (lint validated : Bool) (c c' : CheckConfig)
+    (rc rc' : RulesConfig) (hu : UserMoreSuppression c c')
+    (h : resolve allRules lint validated c = .ok rc) (h' : resolve allRules lint validated c' = .ok rc')
+    (aci iup exi aci' iup' exi' : Bool)
+    (ha : aci = true → aci' = true) (hi : iup = true → iup' = true) (he : exi = true → exi' = true) :
+    MoreSuppression (mkConfig lint rc aci iup exi) (mkConfig lint rc' aci' iup' exi') :=
+  resolve_moreSuppression allRules lint validated c c' rc rc' hu h h' aci iup exi aci' iup' exi' ha hi he
+
+/-- End to end (`runCheck`, same image): after the user added suppression entries and/or
+    switched options on, nothing is reported that was not reported before. -/
+theorem user_suppression_monotone (allRules : List RuleRow) (lint validated : Bool) (c c' : CheckConfig)
+    (aci iup exi aci' iup' exi' : Bool) (img : Image) (out out' : List FileAnnot)
+    (hu : UserMoreSuppression c c')
+    (ha : aci = true → aci' = true) (hi : iup = true → iup' = true) (he : exi = true → exi' = true)
+    (h : runCheck allRules lint validated c aci iup exi img = .ok out)
+    (h' : runCheck allRules lint validated c' aci' iup' exi' img = .ok out') :
+    ∀ fa ∈ out', fa ∈ out := by
+  rcases (runCheck_ok_iff _ _ _ _ _ _ _ _ _).1 h with ⟨rc, hr, hrep⟩
+  rcases (runCheck_ok_iff _ _ _ _ _ _ _ _ _).1 h' with ⟨rc', hr', hrep'⟩
+  exact suppression_monotone _ _ img img out out'
+    (resolve_moreSuppression _ _ _ _ _ _ _ hu hr hr' _ _ _ _ _ _ ha hi he) (MoreCommentsImg.refl img) hrep hrep'
+
+/-- End to end (`runCheck`, same image, same options): an annotation that was reported and is
+    no longer reported afterwards is in the scope of something the user ADDED — a new `except` id
+    that denotes its rule, a new `ignore` path whose normal form covers (component-wise) its
+    file or against-file, or a new `ignore_only` entry whose key denotes its rule and whose
+    path's normal form covers its file or against-file (`UserScope`). -/
+theorem user_suppression_scoped (allRules : List RuleRow) (lint validated : Bool) (c c' : CheckConfig)
+    (aci iup exi : Bool) (img : Image) (out out' : List FileAnnot) (hu : UserMoreSuppression c c')
+    (h : runCheck allRules lint validated c aci iup exi img = .ok out)
+    (h' : runCheck allRules lint validated c' aci iup exi img = .ok out')
+    (fb : FileAnnot) (hfb : fb ∈ out) (hgone : fb ∉ out') :
+    ∃ a ∈ img.annots, toFileAnnot img a = fb ∧ UserScope (tableOf allRules lint c) c c' img a := by
+  rcases (runCheck_ok_iff _ _ _ _ _ _ _ _ _).1 h with ⟨rc, hr, hrep⟩
+  rcases (runCheck_ok_iff _ _ _ _ _ _ _ _ _).1 h' with ⟨rc', hr', hrep'⟩
+  rcases (report_mem_iff _ _ _ hrep fb).1 hfb with ⟨a, hk, hfa⟩
+  refine ⟨a, hk.1, hfa, user_scoped _ _ _ _ _ _ _ hu hr hr' _ _ _ _ _ hk ?_⟩
+  intro hk'
+  exact hgone ((report_mem_iff _ _ _ hrep' fb).2 ⟨a, hk', hfa⟩)
+
+/-- Adding an `ignore` path to the configuration never adds an annotation. -/
+theorem adding_ignore_monotone (allRules : List RuleRow) (lint validated : Bool) (c : CheckConfig) (q : Str)
+    (aci iup exi : Bool) (img : Image) (out out' : List FileAnnot)
+    (h : runCheck allRules lint validated c aci iup exi img = .ok out)
+    (h' : runCheck allRules lint validated (addIgnore c q) aci iup exi img = .ok out') :
+    ∀ fa ∈ out', fa ∈ out :=
+  user_suppression_monotone _ _ _ _ _ _ _ _ _ _ _ _ _ _ (addIgnore_more c q) id id id h h'
+
+/-- Adding an `ignore_only` entry (path `q` under rule / category / deprecated id `k`) never adds
+    an annotation. -/
+theorem adding_ignore_only_monotone (allRules : List RuleRow) (lint validated : Bool) (c : CheckConfig)
+    (k : Id) (q : Str) (aci iup exi : Bool) (img : Image) (out out' : List FileAnnot)
+    (h : runCheck allRules lint validated c aci iup exi img = .ok out)
+    (h' : runCheck allRules lint validated (addIgnoreOnly c k q) aci iup exi img = .ok out') :
+    ∀ fa ∈ out', fa ∈ out :=
+  user_suppression_monotone _ _ _ _ _ _ _ _ _ _ _ _ _ _ (addIgnoreOnly_more c k q) id id id h h'
+
+/-- Adding an `except` id never adds an annotation. -/
+theorem adding_except_monotone (allRules : List RuleRow) (lint validated : Bool) (c : CheckConfig) (e : Id)
+    (aci iup exi : Bool) (img : Image) (out out' : List FileAnnot)
+    (h : runCheck allRules lint validated c aci iup exi img = .ok out)
+    (h' : runCheck allRules lint validated (addExcept c e) aci iup exi img = .ok out') :
+    ∀ fa ∈ out', fa ∈ out :=
+  user_suppression_monotone _ _ _ _ _ _ _ _ _ _ _ _ _ _ (addExcept_more c e) id id id h h'
+
+/-- Adding the `ignore` path `q` removes only annotations whose file or against-file lies at or
+    under the normal form of `q` (component-wise). -/
+theorem adding_ignore_scoped (allRules : List RuleRow) (lint validated : Bool) (c : CheckConfig) (q : Str)
+    (aci iup exi : Bool) (img : Image) (out out' : List FileAnnot)
+    (h : runCheck allRules lint validated c aci iup exi img = .ok out)
+    (h' : runCheck allRules lint validated (addIgnore c q) aci iup exi img = .ok out')
+    (fb : FileAnnot) (hfb : fb ∈ out) (hgone : fb ∉ out') :
+    ∃ a ∈ img.annots, toFileAnnot img a = fb ∧
+      ∃ p, normalizeAndValidate q = .ok p ∧ PathCovers img a p := by
+  rcases user_suppression_scoped _ _ _ _ _ _ _ _ _ _ _ (addIgnore_more c q) h h' fb hfb hgone with ⟨a, ha, hfa, hsc⟩
+  refine ⟨a, ha, hfa, ?_⟩
+  rcases hsc with ⟨e, he, hne, _⟩ | ⟨q', hq', hnq', p, hn, hcov⟩ | ⟨k, q', hio, hnio, _⟩
+  · exact absurd he hne
+  · rcases List.mem_cons.1 hq' with hq' | hq'
+    · subst hq'; exact ⟨p, hn, hcov⟩
+    · exact absurd hq' hnq'
+  · exact absurd hio hnio
+
+/-- Adding the `ignore_only` entry (`k`, `q`) removes only annotations of rules that `k` denotes
+    and whose file or against-file lies at or under the normal form of `q`. -/
+theorem adding_ignore_only_scoped (allRules : List RuleRow) (lint validated : Bool) (c : CheckConfig)
+    (k : Id) (q : Str) (aci iup exi : Bool) (img : Image) (out out' : List FileAnnot)
+    (h : runCheck allRules lint validated c aci iup exi img = .ok out)
+    (h' : runCheck allRules lint validated (addIgnoreOnly c k q) aci iup exi img = .ok out')
+    (fb : FileAnnot) (hfb : fb ∈ out) (hgone : fb ∉ out') :
+    ∃ a ∈ img.annots, toFileAnnot img a = fb ∧ a.ruleId ∈ denote (tableOf allRules lint c) k ∧
+      ∃ p, normalizeAndValidate q = .ok p ∧ PathCovers img a p := by
+  rcases user_suppression_scoped _ _ _ _ _ _ _ _ _ _ _ (addIgnoreOnly_more c k q) h h' fb hfb hgone with ⟨a, ha, hfa, hsc⟩
+  refine ⟨a, ha, hfa, ?_⟩
+  rcases hsc with ⟨e, he, hne, _⟩ | ⟨q', hq', hnq', _⟩ | ⟨k', q', hio, hnio, hd, p, hn, hcov⟩
+  · exact absurd he hne
+  · exact absurd hq' hnq'
+  · rcases (ioHas_ioInsert c.ignoreOnly k q k' q').1 hio with hio | ⟨hk, hq⟩
+    · exact absurd hio hnio
+    · subst hk; subst hq; exact ⟨hd, p, hn, hcov⟩
+
+/-- Adding the `except` id `e` removes only annotations of rules that `e` denotes (the rule
+    itself, the rules of the category, the replacements of the deprecated id). -/
+theorem adding_except_scoped (allRules : List RuleRow) (lint validated : Bool) (c : CheckConfig) (e : Id)
+    (aci iup exi : Bool) (img : Image) (out out' : List FileAnnot)
+    (h : runCheck allRules lint validated c aci iup exi img = .ok out)
+    (h' : runCheck allRules lint validated (addExcept c e) aci iup exi img = .ok out')
+    (fb : FileAnnot) (hfb : fb ∈ out) (hgone : fb ∉ out') :
+    ∃ a ∈ img.annots, toFileAnnot img a = fb ∧ a.ruleId ∈ denote (tableOf allRules lint c) e := by
+  rcases user_suppression_scoped _ _ _ _ _ _ _ _ _ _ _ (addExcept_more c e) h h' fb hfb hgone with ⟨a, ha, hfa, hsc⟩
+  refine ⟨a, ha, hfa, ?_⟩
+  rcases hsc with ⟨e', he', hne', _, hd⟩ | ⟨q', hq', hnq', _⟩ | ⟨k', q', hio, hnio, _⟩
+  · rcases List.mem_cons.1 he' with he' | he'
+    · subst he'; exact hd
+    · exact absurd he' hne'
+  · exact absurd hq' hnq'
+  · exact absurd hio hnio
+
+/-! ## comment edits, over element identity (positions may shift) -/
+
+/-- More suppression in the configuration and/or a comment-only edit of the sources
+    (`MoreCommentsSrc`: more `buf:lint:ignore` directives per ELEMENT; the edited image's
+    single-rule annotations are annotations of the original image on the same element — file and
+    source path — with the same rule and message, at ARBITRARY new positions) never adds an
+    annotation: whatever is reported afterwards is the report of an annotation `a'` whose
+    counterpart `a` on the same element was kept and reported before, and both reports agree on
+    file path, rule id and message (only line / column numbers may differ). -/
+theorem suppression_monotone_elements (cfg cfg' : Config) (img img' : Image) (out out' : List FileAnnot)
+    (hc : MoreSuppression cfg cfg') (hi : MoreCommentsSrc img img')
+    (h : report cfg img = .ok out) (h' : report cfg' img' = .ok out') :
+    ∀ fa' ∈ out', ∃ a' ∈ img'.annots, toFileAnnot img' a' = fa' ∧
+      ∃ a, SameElement a a' ∧ Kept cfg img a ∧
+        toFileAnnot img a ∈ out ∧ faElem (toFileAnnot img a) = faElem fa' := by
+  intro fa' hfa'
+  rcases (report_spec cfg' img' out' h').2.1 fa' hfa' with ⟨a', hk', hfa⟩
+  rcases kept_mono_elem hc hi hk' with ⟨a, hs, hk⟩
+  refine ⟨a', hk'.1, hfa, a, hs, hk, (report_mem_iff cfg img out h _).2 ⟨a, hk, rfl⟩, ?_⟩
+  rw [← hfa]
+  exact (faElem_sameElement (fun i => (hi.files i).path) hs).symm
+
+/-- A comment edit removes only what a NEW directive covers: if the annotation `a` was kept and
+    its counterpart `a'` on the same element is no longer kept after a comment-only edit (same
+    configuration), then comment ignores are allowed and — at the file location or the
+    against-file location — a directive for this rule is present after the edit and was absent
+    before, on an element whose source path is a PREFIX of the annotation's source path (the
+    annotated element itself or a declaration enclosing it). -/
+theorem adding_comment_scoped (cfg : Config) (img img' : Image) (a a' : Annot)
+    (hi : MoreCommentsSrc img img') (hs : SameElement a a') (ha' : a' ∈ img'.annots)
+    (hk : Kept cfg img a) (hk' : ¬ Kept cfg img' a') :
+    cfg.allowCommentIgnores = true ∧
+    ((∃ x', a'.loc = some x' ∧ ∃ p, p <+: x'.sourcePath ∧
+        commentIgnoresAt (fileAt img'.files x'.file) cfg.commentIgnorePrefix a'.ruleId p = true ∧
+        commentIgnoresAt (fileAt img.files x'.file) cfg.commentIgnorePrefix a'.ruleId p = false) ∨
+     (∃ x', a'.against = some x' ∧ ∃ p, p <+: x'.sourcePath ∧
+        commentIgnoresAt (fileAt img'.againstFiles x'.file) cfg.commentIgnorePrefix a'.ruleId p = true ∧
+        commentIgnoresAt (fileAt img.againstFiles x'.file) cfg.commentIgnorePrefix a'.ruleId p = false)) := by
+  rcases hk with ⟨_, hk2, hk3⟩
+  have hsup' : AnnotSuppressed cfg img' a' := by
+    apply Classical.byContradiction
+    intro hn; exact hk' ⟨ha', by rw [hs.ruleId]; exact hk2, hn⟩
+  -- the same analysis at either location
+  have key : ∀ (fs fs' : List FileInfo) (hf : ∀ i, MoreComments (fileAt fs i) (fileAt fs' i))
+      (l l' : Option Loc) (hl : locElem l' = locElem l) (x' : Loc) (hx' : l' = some x')
+      (hsx : Suppressed cfg a'.ruleId (fileAt fs' x'.file) x'.sourcePath)
+      (hnx : ¬ LocSuppressed cfg fs a.ruleId l),
+      cfg.allowCommentIgnores = true ∧ ∃ p, p <+: x'.sourcePath ∧
+        commentIgnoresAt (fileAt fs' x'.file) cfg.commentIgnorePrefix a'.ruleId p = true ∧
+        commentIgnoresAt (fileAt fs x'.file) cfg.commentIgnorePrefix a'.ruleId p = false := by
+    intro fs fs' hf l l' hl x' hx' hsx hnx
+    rcases locElem_some hl.symm hx' with ⟨x, hx, h1, h2⟩
+    have hn : ¬ Suppressed cfg a'.ruleId (fileAt fs x'.file) x'.sourcePath := by
+      intro hh; apply hnx
+      refine ⟨x, hx, ?_⟩
+      rw [h1, h2, ← hs.ruleId]; exact hh
+    have hm := hf x'.file
+    rcases hsx with hc | hc | hc | hc | hc
+    · exact absurd (Or.inl ⟨hc.1, by rw [← hm.isImport]; exact hc.2⟩) hn
+    · rcases hc with ⟨p, hp, he⟩
+      exact absurd (Or.inr (Or.inl ⟨p, hp, by rw [← hm.path]; exact he⟩)) hn
+    · rcases hc with ⟨p, hp, he⟩
+      exact absurd (Or.inr (Or.inr (Or.inl ⟨p, hp, by rw [← hm.path]; exact he⟩))) hn
+    · exact absurd (Or.inr (Or.inr (Or.inr (Or.inl ⟨hc.1, by rw [← hm.unstable]; exact hc.2⟩)))) hn
+    · rcases hc with ⟨c1, c2, c3, ps, hps, p, hp, hd⟩
+      refine ⟨c1, p, associated_are_prefixes _ _ hps p hp, hd, ?_⟩
+      cases hb : commentIgnoresAt (fileAt fs x'.file) cfg.commentIgnorePrefix a'.ruleId p with
+      | false => rfl
+      | true => exact absurd (Or.inr (Or.inr (Or.inr (Or.inr ⟨c1, c2, c3, ps, hps, p, hp, hb⟩)))) hn
+  rcases hsup' with ⟨x', hx', hsx⟩ | ⟨x', hx', hsx⟩
+  · rcases key img.files img'.files hi.files a.loc a'.loc hs.loc x' hx' hsx (fun hh => hk3 (Or.inl hh)) with ⟨c1, p, hp⟩
+    exact ⟨c1, Or.inl ⟨x', hx', p, hp⟩⟩
+  · rcases key img.againstFiles img'.againstFiles hi.againstFiles a.against a'.against hs.against x' hx' hsx
+      (fun hh => hk3 (Or.inr hh)) with ⟨c1, p, hp⟩
+    exact ⟨c1, Or.inr ⟨x', hx', p, hp⟩⟩
+
+/-- "On an enclosing element", independently of the DFA's tables: every source path at which
+    `ignoreFileLocation` looks for a directive is a prefix of the annotation's source path. -/
+theorem comment_directives_reach_enclosing_only (sp : SPath) (ps : List SPath)
+    (h : associatedSourcePaths sp = .ok ps) : ∀ p ∈ ps, p <+: sp :=
+  associated_are_prefixes sp ps h
+
+/-! ## imports -/
 
 /-- Breaking with exclude-imports (and any configuration with `excludeImports`): nothing is
     reported whose file or against-file is an import. -/
@@ -313,5 +636,119 @@ example : MoreSuppression (exCfg false [] false) (exCfg true ["a".toList] true) 
   ⟨fun _ h => h, fun _ h => (by cases h), fun _ h => h, fun h => (by cases h), fun h => h, fun h => (by cases h), rfl⟩
 example : associatedSourcePaths [4, 0, 2, 0, 1] = .ok [[4, 0], [4, 0, 2, 0]] := by decide
 example : associatedSourcePaths [4, 0, 3, 1, 4, 0, 2, 2, 3] = .ok [[4, 0], [4, 0, 3, 1], [4, 0, 3, 1, 4, 0], [4, 0, 3, 1, 4, 0, 2, 2], [4, 0, 3, 1, 4, 0, 2, 2, 3]] := by decide
+
+/-! ### non-vacuity of the user-level theorems (through the functions the driver runs)
+
+  `exImg2` (lint annotations in two directories), `exImg2c` (the same sources after a directive
+  line was INSERTED above message 0 of a/v1/a.proto: every position below moved down one line,
+  source paths unchanged), `exC` and `exImg2_moreComments : MoreCommentsSrc exImg2 exImg2c` are
+  in Lemmas/RulesResolveLemmas.lean. -/
+
+def faM (l : Nat) : FileAnnot := ⟨some "a/v1/a.proto".toList, l, 9, l, 20, "MESSAGE_PASCAL_CASE", "m"⟩
+def faF : FileAnnot := ⟨some "a/v1/a.proto".toList, 5, 10, 5, 18, "FIELD_LOWER_SNAKE_CASE", "f"⟩
+def faE : FileAnnot := ⟨some "b/b.proto".toList, 3, 6, 3, 10, "ENUM_PASCAL_CASE", "e"⟩
+
+-- before: all three are reported (hypothesis `h` of the user-level theorems)
+example : runCheck (rulesOf .v2) true true exC false false false exImg2 = .ok [faM 4, faF, faE] := by decide
+-- an UNNORMALISED ignore path is accepted and silences exactly the directory it normalises to
+example : runCheck (rulesOf .v2) true true (addIgnore exC "./a//v1/".toList) false false false exImg2 = .ok [faE] := by decide
+example : ∀ fa ∈ [faE], fa ∈ [faM 4, faF, faE] :=
+  adding_ignore_monotone (rulesOf .v2) true true exC "./a//v1/".toList false false false exImg2 _ _ (by decide) (by decide)
+example : ∃ a ∈ exImg2.annots, toFileAnnot exImg2 a = faF ∧
+    ∃ p, normalizeAndValidate "./a//v1/".toList = .ok p ∧ PathCovers exImg2 a p :=
+  adding_ignore_scoped (rulesOf .v2) true true exC "./a//v1/".toList false false false exImg2 [faM 4, faF, faE] [faE]
+    (by decide) (by decide) faF (by decide) (by decide)
+example : normalizeAndValidate "./a//v1/".toList = .ok "a/v1".toList := by decide
+-- an ignore_only entry under a CATEGORY key, added to a map that already has another key
+example : runCheck (rulesOf .v2) true true (addIgnoreOnly exC "BASIC" "b".toList) false false false exImg2
+    = .ok [faM 4, faF] := by decide
+example : ∀ fa ∈ [faM 4, faF], fa ∈ [faM 4, faF, faE] :=
+  adding_ignore_only_monotone (rulesOf .v2) true true exC "BASIC" "b".toList false false false exImg2 _ _ (by decide) (by decide)
+example : ∃ a ∈ exImg2.annots, toFileAnnot exImg2 a = faE ∧ a.ruleId ∈ denote (tableOf (rulesOf .v2) true exC) "BASIC" ∧
+    ∃ p, normalizeAndValidate "b".toList = .ok p ∧ PathCovers exImg2 a p :=
+  adding_ignore_only_scoped (rulesOf .v2) true true exC "BASIC" "b".toList false false false exImg2 [faM 4, faF, faE] [faM 4, faF]
+    (by decide) (by decide) faE (by decide) (by decide)
+example : "ENUM_PASCAL_CASE" ∈ denote (tableOf (rulesOf .v2) true exC) "BASIC" := by decide
+-- … and under an existing key
+example : (addIgnoreOnly exC "ENUM_PASCAL_CASE" "b".toList).ignoreOnly = [("ENUM_PASCAL_CASE", ["b".toList, "c".toList])] := by decide
+-- an except id
+example : runCheck (rulesOf .v2) true true (addExcept exC "FIELD_LOWER_SNAKE_CASE") false false false exImg2
+    = .ok [faM 4, faE] := by decide
+example : ∀ fa ∈ [faM 4, faE], fa ∈ [faM 4, faF, faE] :=
+  adding_except_monotone (rulesOf .v2) true true exC "FIELD_LOWER_SNAKE_CASE" false false false exImg2 _ _ (by decide) (by decide)
+example : ∃ a ∈ exImg2.annots, toFileAnnot exImg2 a = faF ∧
+    a.ruleId ∈ denote (tableOf (rulesOf .v2) true exC) "FIELD_LOWER_SNAKE_CASE" :=
+  adding_except_scoped (rulesOf .v2) true true exC "FIELD_LOWER_SNAKE_CASE" false false false exImg2 [faM 4, faF, faE] [faM 4, faE]
+    (by decide) (by decide) faF (by decide) (by decide)
+-- several additions at once, an option switched on, the raw (unvalidated) entry point
+example : UserMoreSuppression exC (addIgnore (addExcept (addIgnoreOnly exC "BASIC" "b".toList) "MINIMAL") "a".toList) :=
+  ⟨fun _ => Iff.rfl, fun _ h => List.mem_cons_of_mem _ h, fun _ h => List.mem_cons_of_mem _ h,
+   fun k q h => (ioHas_ioInsert _ _ _ k q).2 (Or.inl h), rfl⟩
+example : ∀ fa ∈ ([] : List FileAnnot), fa ∈ [faM 4, faF, faE] :=
+  user_suppression_monotone (rulesOf .v2) true false exC
+    (addIgnore (addExcept (addIgnoreOnly exC "BASIC" "b".toList) "MINIMAL") "a".toList)
+    false false false true false false exImg2 _ _
+    ⟨fun _ => Iff.rfl, fun _ h => List.mem_cons_of_mem _ h, fun _ h => List.mem_cons_of_mem _ h,
+     fun k q h => (ioHas_ioInsert _ _ _ k q).2 (Or.inl h), rfl⟩
+    (fun h => (by cases h)) id id (by decide) (by decide)
+example : UserScope (tableOf (rulesOf .v2) true exC) exC (addIgnore exC "a".toList) exImg2
+    { ruleId := "MESSAGE_PASCAL_CASE", loc := some ⟨0, [4, 0, 1], 3, 8, 3, 19⟩, against := none, message := "m" } :=
+  Or.inr (Or.inl ⟨"a".toList, by simp [addIgnore], by decide, "a".toList, by decide, Or.inl ⟨_, rfl, by decide⟩⟩)
+-- user_suppression_resolves_to_more, on the resolved configurations themselves
+example : ∃ rc rc', resolve (rulesOf .v2) true true exC = .ok rc ∧
+    resolve (rulesOf .v2) true true (addIgnoreOnly exC "BASIC" "./b".toList) = .ok rc' ∧
+    MoreSuppression (mkConfig true rc false false false) (mkConfig true rc' true false false) ∧
+    ("MESSAGE_PASCAL_CASE", "b".toList) ∈ rc'.ignoreOnly ∧ ("MESSAGE_PASCAL_CASE", "b".toList) ∉ rc.ignoreOnly :=
+  ⟨⟨["ENUM_PASCAL_CASE", "FIELD_LOWER_SNAKE_CASE", "MESSAGE_PASCAL_CASE"], [], [("ENUM_PASCAL_CASE", "c".toList)]⟩, _,
+   by decide, rfl,
+   user_suppression_resolves_to_more (rulesOf .v2) true true exC _ _ _ (addIgnoreOnly_more exC "BASIC" "./b".toList)
+     (by decide) rfl false false false true false false (fun h => (by cases h)) id id,
+   by decide, by decide⟩
+-- ignore_clauses_user_level on the resolved example configuration (hypotheses `h`, `hrs`)
+example : IgnoreOnlyClause (mkConfig true ⟨["ENUM_PASCAL_CASE", "FIELD_LOWER_SNAKE_CASE", "MESSAGE_PASCAL_CASE"], [],
+      [("ENUM_PASCAL_CASE", "c".toList)]⟩ false false false) "ENUM_PASCAL_CASE"
+      { path := "c/x.proto".toList, isImport := false, unstable := false, comments := [] } :=
+  ((ignore_clauses_user_level (rulesOf .v2) true true exC _ (by decide) (by decide) false false false "ENUM_PASCAL_CASE" _).2).2
+    ⟨"ENUM_PASCAL_CASE", ["c".toList], "c".toList, by simp [exC], by simp, by decide, by decide, "c".toList, by decide, by decide⟩
+-- resolved_config_spec: a DEPRECATED id as ignore_only key, unnormalised paths, duplicates (breaking, v1)
+example : (resolve (rulesOf .v1) false true
+    { use := ["WIRE"], except := [], ignore := ["./x/".toList, "./x/".toList],
+      ignoreOnly := [("FIELD_SAME_CTYPE", ["a//b".toList])], disableBuiltin := false }).map
+      (fun rc => (rc.ignoreRootPaths, rc.ignoreOnly))
+    = .ok (["x".toList], [("FIELD_SAME_CPP_STRING_TYPE", "a/b".toList)]) := by decide
+example : tableOf (rulesOf .v1) false
+    { use := ["WIRE"], except := [], ignore := [], ignoreOnly := [], disableBuiltin := false } ≠ [] := by decide
+-- builtin rules disabled: the empty table; everything (even an unknown id) resolves to the empty configuration
+example : resolve (rulesOf .v2) true true
+    { use := ["NOPE"], except := [], ignore := [], ignoreOnly := [], disableBuiltin := true }
+    = .ok { ruleIDs := [], ignoreRootPaths := [], ignoreOnly := [] } := by decide
+example : tableOf (rulesOf .v2) true
+    { use := ["NOPE"], except := [], ignore := [], ignoreOnly := [], disableBuiltin := true } = [] := by decide
+
+-- comment edit that shifts positions: reports before / after (hypotheses `h`, `h'`) …
+def exCfgL : Config :=
+  mkConfig true ⟨["ENUM_PASCAL_CASE", "FIELD_LOWER_SNAKE_CASE", "MESSAGE_PASCAL_CASE"], [], []⟩ true false false
+example : report exCfgL exImg2 = .ok [faM 4, faF, faE] := by decide
+example : report exCfgL exImg2c = .ok [faM 5, faE] := by decide
+-- … the message annotation is reported one line lower and is matched to its counterpart by element
+example : ∀ fa' ∈ [faM 5, faE], ∃ a' ∈ exImg2c.annots, toFileAnnot exImg2c a' = fa' ∧
+      ∃ a, SameElement a a' ∧ Kept exCfgL exImg2 a ∧
+        toFileAnnot exImg2 a ∈ [faM 4, faF, faE] ∧ faElem (toFileAnnot exImg2 a) = faElem fa' :=
+  suppression_monotone_elements exCfgL exCfgL exImg2 exImg2c _ _
+    ⟨fun _ h => h, fun _ h => h, fun _ h => h, id, id, id, rfl⟩ exImg2_moreComments (by decide) (by decide)
+-- … and the field annotation disappears because of the NEW directive on the enclosing message [4,0]
+example : exCfgL.allowCommentIgnores = true ∧
+    ((∃ x', exF'.loc = some x' ∧ ∃ p, p <+: x'.sourcePath ∧
+        commentIgnoresAt (fileAt exImg2c.files x'.file) exCfgL.commentIgnorePrefix exF'.ruleId p = true ∧
+        commentIgnoresAt (fileAt exImg2.files x'.file) exCfgL.commentIgnorePrefix exF'.ruleId p = false) ∨
+     (∃ x', exF'.against = some x' ∧ ∃ p, p <+: x'.sourcePath ∧
+        commentIgnoresAt (fileAt exImg2c.againstFiles x'.file) exCfgL.commentIgnorePrefix exF'.ruleId p = true ∧
+        commentIgnoresAt (fileAt exImg2.againstFiles x'.file) exCfgL.commentIgnorePrefix exF'.ruleId p = false)) :=
+  adding_comment_scoped exCfgL exImg2 exImg2c exF exF' exImg2_moreComments ⟨rfl, rfl, rfl, rfl⟩ (by simp [exImg2c, exF'])
+    ⟨by simp [exImg2, exF], by decide,
+     fun hs => by have := (ignoreAnnotation_ok exCfgL exImg2 exF false (by decide)).2 hs; cases this⟩
+    (fun hk => by
+      have : ¬ AnnotSuppressed exCfgL exImg2c exF' := hk.2.2
+      exact this ((ignoreAnnotation_ok exCfgL exImg2c exF' true (by decide)).1 rfl))
 
 end BufProofs.C06
